@@ -353,3 +353,204 @@ func ruleC07Refusal(p *Prog, r *Res) {
 	})
 	r.Floor(rule, 3, n)
 }
+
+// ---- C07-f: per-attempt state in a retry loop is fresh ----
+
+func init() {
+	register("C07",
+		"C07-f (FLOW): a retry loop is a for statement whose body ends in break/return, so that it iterates again only through `continue` — every further iteration is a new attempt after an abandoned one. Inside such a loop an append to a variable (or to a field of a variable) that is declared outside the loop body, from which a `continue` of the loop is reachable, must be preceded on every path from the start of the iteration by an assignment of a fresh value to that variable/field: otherwise the entries appended by the abandoned attempt survive into the next one (AddIndex: a host remap table that is shifted by the hosts of a writer group that turned out to be full).",
+		ruleC07Retry)
+}
+
+func ruleC07Retry(p *Prog, r *Res) {
+	const rule = "C07-f retry-attempt-state-fresh"
+	r.Rule(rule + ": appends made during an attempt that can be abandoned go to state created (or reset) in that attempt")
+	nLoops, nApp := 0, 0
+	for _, f := range p.FnList {
+		switch f.Short {
+		case "index", "builder", "manager", "converters":
+		default:
+			continue
+		}
+		if f.Body() == nil {
+			continue
+		}
+		info := f.Pkg.TypesInfo
+		var fl *Flow
+		inspectParents(f.Body(), func(x ast.Node, parents []ast.Node) bool {
+			loop, ok := x.(*ast.ForStmt)
+			if !ok || len(loop.Body.List) == 0 {
+				return true
+			}
+			switch last := loop.Body.List[len(loop.Body.List)-1].(type) {
+			case *ast.BranchStmt:
+				if last.Tok != token.BREAK {
+					return true
+				}
+			case *ast.ReturnStmt:
+			default:
+				return true
+			}
+			// label of the loop, if any
+			label := ""
+			if len(parents) > 0 {
+				if ls, ok := parents[len(parents)-1].(*ast.LabeledStmt); ok {
+					label = ls.Label.Name
+				}
+			}
+			// continues of this loop
+			var continues []ast.Node
+			var walk func(n ast.Node, depth int)
+			walk = func(n ast.Node, depth int) {
+				ast.Inspect(n, func(y ast.Node) bool {
+					switch s := y.(type) {
+					case *ast.FuncLit:
+						return false
+					case *ast.ForStmt:
+						if s != loop {
+							walk(s.Body, depth+1)
+							return false
+						}
+					case *ast.RangeStmt:
+						walk(s.Body, depth+1)
+						return false
+					case *ast.BranchStmt:
+						if s.Tok == token.CONTINUE && ((s.Label == nil && depth == 0) || (s.Label != nil && s.Label.Name == label && label != "")) {
+							continues = append(continues, s)
+						}
+					}
+					return true
+				})
+			}
+			walk(loop.Body, 0)
+			if len(continues) == 0 {
+				return true
+			}
+			nLoops++
+			if fl == nil {
+				fl = p.Flow(f)
+			}
+			// go/cfg turns `continue` into an edge, not a node: since the body ends in break/return, the loop's post
+			// statement (or, without one, its condition) is reached from inside the body only through a continue
+			var again ast.Node
+			if loop.Post != nil {
+				again = loop.Post
+			} else if loop.Cond != nil {
+				again = loop.Cond
+			}
+			if again == nil {
+				return true
+			}
+			isContinue := func(n ast.Node) bool { return n == again }
+			// appends inside the loop body to state declared outside it
+			for _, pt := range fl.Find(func(n ast.Node) bool {
+				as, ok := n.(*ast.AssignStmt)
+				return ok && within(n, loop.Body) && len(as.Lhs) == 1 && len(as.Rhs) == 1
+			}) {
+				as := fl.node(pt).(*ast.AssignStmt)
+				c, ok := as.Rhs[0].(*ast.CallExpr)
+				if !ok || !isBuiltin(info, c, "append") || len(c.Args) < 1 {
+					continue
+				}
+				target := exprString(p.Fset, as.Lhs[0])
+				if exprString(p.Fset, c.Args[0]) != target {
+					continue
+				}
+				rootObj, _, okp := accessPath(info, as.Lhs[0])
+				if !okp || rootObj == nil {
+					continue
+				}
+				if rootObj.Pos() >= loop.Body.Pos() && rootObj.Pos() <= loop.Body.End() {
+					continue // declared inside the attempt
+				}
+				// the collection the loop retries over (it appears in the loop condition) grows on purpose: a new
+				// candidate is appended when all existing ones refused
+				if loop.Cond != nil && strings.Contains(exprString(p.Fset, loop.Cond), target) {
+					continue
+				}
+				// only appends from which the attempt can be abandoned
+				if !fl.Reach([]Pt{After(pt)}, isContinue, func(n ast.Node) bool { return !within(n, loop.Body) }).Found {
+					continue // leaves the loop (break/return) before it can iterate again
+				}
+				nApp++
+				key := fmt.Sprintf("%s retry loop (line +%d): append to %s", f.Key(), lineOf(p.Fset, loop)-lineOf(p.Fset, f.Node()), target)
+				// is the root variable (with the slice header inside it) stored somewhere — appended to a collection,
+				// assigned to another variable? Then re-using its backing array (x = x[:0]) would overwrite what was stored.
+				rootStored := false
+				ast.Inspect(loop.Body, func(y ast.Node) bool {
+					switch s := y.(type) {
+					case *ast.CallExpr:
+						if isBuiltin(info, s, "append") {
+							for _, a := range s.Args[1:] {
+								if sameObj(info, a, rootObj) {
+									rootStored = true
+								}
+							}
+						}
+					case *ast.AssignStmt:
+						for _, rh := range s.Rhs {
+							if sameObj(info, rh, rootObj) {
+								rootStored = true
+							}
+						}
+					}
+					return true
+				})
+				// fresh assignment to the target (or to the whole root variable) before the append, within this iteration
+				isFresh := func(n ast.Node) bool {
+					a2, ok := n.(*ast.AssignStmt)
+					if !ok || n == ast.Node(as) || !within(n, loop.Body) {
+						return false
+					}
+					for i, l := range a2.Lhs {
+						ls := exprString(p.Fset, l)
+						if ls != target && ls != rootObj.Name() {
+							continue
+						}
+						if i < len(a2.Rhs) || len(a2.Rhs) == 1 {
+							rh := a2.Rhs[0]
+							if i < len(a2.Rhs) {
+								rh = a2.Rhs[i]
+							}
+							derived := false
+							ast.Inspect(rh, func(y ast.Node) bool {
+								if id, ok := y.(*ast.Ident); ok && info.Uses[id] == rootObj {
+									derived = true
+								}
+								return true
+							})
+							// x = x[:0] empties the slice: as good as a fresh one for what the next attempt appends
+							if se, ok := ast.Unparen(rh).(*ast.SliceExpr); ok && !rootStored && ls == target && exprString(p.Fset, se.X) == target && se.Low == nil && se.High != nil {
+								if tv, ok := info.Types[se.High]; ok && tv.Value != nil && tv.Value.ExactString() == "0" {
+									derived = false
+								}
+							}
+							if !derived {
+								return true
+							}
+						}
+					}
+					return false
+				}
+				// start of an iteration: first node of the loop body
+				var starts []Pt
+				for _, b := range fl.G.Blocks {
+					for i, n := range b.Nodes {
+						if within(n, loop.Body) && len(starts) == 0 && n.Pos() >= loop.Body.List[0].Pos() && n.End() <= loop.Body.List[0].End() {
+							starts = append(starts, Pt{b, i})
+						}
+					}
+				}
+				if len(starts) == 0 {
+					r.Undecided(rule, key, p.Pos(as), "cannot locate the start of the loop body in the CFG")
+					continue
+				}
+				res := fl.Reach(starts, func(n ast.Node) bool { return n == ast.Node(as) }, isFresh)
+				r.Check(!res.Found, rule, key, p.Pos(as), "a fresh value is assigned in this iteration before the append", "the state appended to was created outside this attempt and is not reset at its start: entries appended by an attempt that was abandoned by `continue` are still there in the next attempt ("+fl.traceString(res)+")")
+			}
+			return true
+		})
+	}
+	r.Note("%s: %d retry loops (body ends in break/return, iterates again only through continue), %d appends to outer state from which the attempt can be abandoned", rule, nLoops, nApp)
+	r.Floor(rule+" retry loops", 1, nLoops)
+}
